@@ -131,9 +131,17 @@ func (p *Pair) installMiddlebox(l *Link) {
 // NewPair builds the real client and server of a configuration.  label separates key material of
 // different pairs built from the same seed (second session under a different key).
 func NewPairFor(cfg Config, label string) (*Pair, error) {
+	return NewPairMixed(cfg, label, label)
+}
+
+// NewPairMixed is NewPairFor with the identity keys (iPSKs, prefixes) derived from label and the user
+// keys from ulabel: a client that passes the identity relays but whose user key the server of
+// NewPairFor(cfg, label) does not know.
+func NewPairMixed(cfg Config, label, ulabel string) (*Pair, error) {
 	p := &Pair{Cfg: cfg}
-	p.ReqPfx = Bytes(cfg.Seed, label+"/reqpfx", cfg.ReqPfx)
-	p.RspPfx = Bytes(cfg.Seed, label+"/rsppfx", cfg.RspPfx)
+	// the stream prefixes are protocol camouflage shared by every user of a deployment
+	p.ReqPfx = Bytes(cfg.Seed, "reqpfx", cfg.ReqPfx)
+	p.RspPfx = Bytes(cfg.Seed, "rsppfx", cfg.RspPfx)
 	for i := 0; i < cfg.Depth; i++ {
 		p.Keys.IPSKs = append(p.Keys.IPSKs, Bytes(cfg.Seed, fmt.Sprintf("%s/ipsk%d", label, i), cfg.KeyLen))
 	}
@@ -144,7 +152,7 @@ func NewPairFor(cfg Config, label string) (*Pair, error) {
 		ulm = make(ss2022.UserLookupMap, nusers)
 	}
 	for i := 0; i < nusers; i++ {
-		psk := Bytes(cfg.Seed, fmt.Sprintf("%s/upsk%d", label, i), cfg.KeyLen)
+		psk := Bytes(cfg.Seed, fmt.Sprintf("%s/upsk%d", ulabel, i), cfg.KeyLen)
 		if i == mine {
 			p.Keys.UPSK = psk
 			if cfg.Depth > 0 {
